@@ -23,6 +23,7 @@ type vFs struct {
 	order   []string // insertion order of names (deterministic iteration)
 	writes  []string
 	deletes []string
+	advance bool // every write happens at a strictly later instant
 	failAt  int // the failAt-th WriteFile fails (0 = never)
 	tearAt  int // the failing write leaves the first tearAt bytes (-1: nothing written)
 	nWrites int
@@ -39,7 +40,17 @@ func (f *vFs) put(name string, data []byte, mtime time.Time) {
 
 func (f *vFs) FS() fs.FS { return f }
 
+// tick lets (symbolic) time pass strictly.
+func (f *vFs) tick() {
+	if f.advance {
+		prev := time.Now()
+		vClockAdvance()
+		vAssume(time.Now().After(prev))
+	}
+}
+
 func (f *vFs) WriteFile(name string, content []byte) error {
+	f.tick()
 	f.nWrites++
 	if f.failAt == f.nWrites {
 		if f.tearAt >= 0 {
